@@ -25,6 +25,7 @@ CMD_DESCR = ("CARGO_NET_OFFLINE=true cargo kani -p <crate> -Z function-contracts
 PKG = {"rustemo": "rustemo", "compiler": "rustemo-compiler"}
 DEFAULT_TIMEOUT = int(os.environ.get("VERIF_KANI_TIMEOUT", "1500"))
 MAX_JOBS = int(os.environ.get("VERIF_KANI_JOBS", "3"))
+PLAYBACK_TIMEOUT = int(os.environ.get("VERIF_KANI_PLAYBACK_TIMEOUT", "900"))  # the re-run that asks CBMC for a concrete input
 
 HARNESS_RE = re.compile(r"^(?:Thread \d+: )?Checking harness ([\w:]+)\.\.\.", re.M)
 
@@ -204,10 +205,18 @@ def run_harnesses(obls, tier="quick"):
         detail = {}
         if redo and not compile_err:
             with cf.ThreadPoolExecutor(max_workers=MAX_JOBS) as ex:
-                futs = {h: ex.submit(cargo_kani, crate, [h], ["-Z", "concrete-playback", "--concrete-playback=print"]) for h in redo}
+                futs = {h: ex.submit(cargo_kani, crate, [h], ["-Z", "concrete-playback", "--concrete-playback=print"], PLAYBACK_TIMEOUT) for h in redo}
                 for h, f in futs.items():
                     r2 = f.result()
                     p2 = parse_output(r2["out"]).get(h)
+                    if p2 is None or r2["rc"] == 124 or "out of memory" in r2["out"] or "CBMC failed with status" in r2["out"]:
+                        # the search for a concrete input (a second, harder SAT query) ran out of time or memory: classify the
+                        # failure from a plain detailed run; a definite failing check is then a violation without a concrete input
+                        r3 = cargo_kani(crate, [h])
+                        p3 = parse_output(r3["out"]).get(h)
+                        if p3:
+                            p3["playback_gave_up"] = True
+                            r2, p2 = r3, p3
                     if p2:
                         p2["oom"] = "out of memory" in r2["out"] or "CBMC failed with status" in r2["out"]
                         p2["timeout"] = r2["rc"] == 124
